@@ -217,8 +217,21 @@ def check_outputs(obs: Obs, env: dict, outs: list[str], stmts_by_name: dict, res
             # constants carry their own label (C20's business, not claimed), bare aliases and
             # duplicates merged by common-subexpression elimination share another name's anchor.
             prod = [obs.w.ents[n] for n in obs.by_name.get(name, [])]
+            consts = [p for p in prod if p.kind == "const"]
+            if consts and name not in noanchor_ok and ex[0] not in ("siglit", "siglitt", "lit", "var"):
+                # The compiler turned a name that depends on inputs into a constant combinator.
+                # A constant is only right if it holds the value the expression has NOW (a value
+                # frozen at its initial inputs is exactly what this catches once an input moves).
+                held = sum(v for c_ in consts[:1] for v in (c_.const or {}).values())
+                res["compared"] += 1
+                if len(consts[0].const or {}) > 1 or held != exp.v:
+                    raise Violation("wrong-value", {"name": name, "type": exp.type, "expected": exp.v,
+                                                    "got": held, "network": "constant combinator",
+                                                    "where": where})
+                probe(res, "unanchored_constant_checked_by_value")
+                continue
             if (ex[0] in ("siglit", "siglitt", "lit", "var")
-                    or any(p.kind == "const" for p in prod)
+                    or consts
                     or name in noanchor_ok):
                 probe(res, "unanchored_constant_alias_or_cse_duplicate")
                 continue
